@@ -2,7 +2,7 @@
 import json
 
 UNTRUSTED = {"name", "comm", "profile", "target", "srcname", "peer", "label", "peer_label", "info_name"}
-BARE = {"pid", "peer_pid", "fsuid", "ouid", "error", "protocol", "capability", "lport", "fport", "sauid", "ino", "dev_maj"}
+BARE = {"pid", "peer_pid", "fsuid", "ouid", "error", "protocol", "capability", "lport", "fport", "sauid", "ino", "dev_maj", "rlimit", "value"}
 
 PROFILES = ["firefox", "gnome-shell", "snap.firefox.firefox", "foo//bar", "torbrowser", "child-open", "/usr/bin/man", "systemd-logind",
             "xdg-desktop-portal", "pacman", "apt", "dockerd"]
@@ -83,7 +83,7 @@ def render(fields, framing="audit", serial=1, ts="1700000000.123", apparmor_firs
 def gen_record(rng, tag, cls=None, status=None, profile=None, tame=False):
     """Returns dict(fields=[(k,v)...], cls=..., tag=..., values={k: v})."""
     cls = cls or rng.choice(["file"] * 8 + ["cap", "net", "unix", "signal", "ptrace", "dbus", "mount", "umount", "remount", "pivotroot",
-                                            "change_onexec", "mqueue", "io_uring", "userns", "exec", "link"])
+                                            "change_onexec", "mqueue", "io_uring", "userns", "rlimit", "exec", "link"])
     status = status or rng.choice(["DENIED", "ALLOWED", "ALLOWED", "AUDIT"])
     profile = profile or rng.choice(PROFILES)
     pid = str(rng.randint(100, 99999))
@@ -167,8 +167,13 @@ def gen_record(rng, tag, cls=None, status=None, profile=None, tame=False):
               ("requested", "create"), ("denied", "create")]
     elif cls == "io_uring":
         f += [("operation", "uring_sqpoll"), ("class", "io_uring"), ("profile", profile), ("pid", pid), ("comm", comm), ] + (lambda a: [("requested", a), ("denied", a)])(rng.choice(["sqpoll", "override_creds"]))
+    elif cls == "rlimit":
+        # kernel: audit_log_format(ab, " rlimit=%s value=%lu", ...), both bare
+        f += [("operation", "setrlimit"), ("class", "rlimits"), ("profile", profile), ("pid", pid), ("comm", comm),
+              ("rlimit", rng.choice(["nofile", "nproc", "memlock", "stack", "core", "fsize", "as", "msgqueue"])), ("value", str(rng.choice([0, 1024, 4096, 65536, 8388608, 1048576 + tag])))]
     elif cls == "userns":
-        f += [("operation", "userns_create"), ("class", "namespace"), ("info", "Userns create restricted - failed to find unprivileged_userns profile"), ("error", "-13"),
+        f += [("operation", "userns_create"), ("class", "namespace"),
+              ("info", rng.choice(["Userns create restricted - failed to find unprivileged_userns profile", "Userns create - namespace creation restricted"])), ("error", "-13"),
               ("profile", profile), ("pid", pid), ("comm", comm), ("requested", "userns_create"), ("denied", "userns_create")]
     return {"fields": f, "cls": cls, "tag": tag, "values": dict((x[0], x[1]) for x in f), "status": status, "profile": profile}
 
